@@ -14,6 +14,20 @@ func init() {
 
 var parseCount int64
 var sweepCount int64
+var cleanersStarted, cleanersExited int64
+
+// awaitCleanersGone: StopASTCacheCleanup only cancels; the goroutine may still be inside a sweep. The
+// model's "stop" is the instant after which no sweep happens, so wait until every started cleaner has exited.
+func awaitCleanersGone(deadline time.Duration) bool {
+	t0 := time.Now()
+	for atomic.LoadInt64(&cleanersExited) < atomic.LoadInt64(&cleanersStarted) {
+		if time.Since(t0) > deadline {
+			return false
+		}
+		time.Sleep(100 * time.Microsecond)
+	}
+	return true
+}
 
 func installParseCounter() {
 	orig := mjml.ParseMJML
@@ -66,14 +80,19 @@ func cacheHist(args []string) {
 	}
 	installParseCounter()
 	mjml.VerifSetYield(func(point string, key uint64) {
-		if point == "cleaner.swept" {
+		switch point {
+		case "cleaner.swept":
 			atomic.AddInt64(&sweepCount, 1)
+		case "cleaner.exit":
+			atomic.AddInt64(&cleanersExited, 1)
 		}
 	})
 	eachJob(func(j job) any {
 		// reset between histories
 		mjml.StopASTCacheCleanup()
+		awaitCleanersGone(2 * time.Second)
 		mjml.VerifCacheClear()
+		wasRunning := false
 		var docs []string
 		for _, d := range j.list("docs") {
 			docs = append(docs, d.(string))
@@ -125,6 +144,9 @@ func cacheHist(args []string) {
 				st["kind"] = 0
 			case "stop":
 				mjml.StopASTCacheCleanup()
+				if !awaitCleanersGone(2 * time.Second) {
+					sweepTimeouts++
+				}
 				st["kind"] = 0
 			case "setttl":
 				mjml.SetASTCacheTTLOnce(time.Duration(int64(op.num("ns"))))
@@ -139,7 +161,12 @@ func cacheHist(args []string) {
 				}
 			}
 			st["len"] = mjml.VerifCacheLen()
-			st["running"] = mjml.VerifCleanupRunning()
+			nowRunning := mjml.VerifCleanupRunning()
+			if nowRunning && !wasRunning {
+				atomic.AddInt64(&cleanersStarted, 1) // operations are sequential: one goroutine per false -> true transition
+			}
+			wasRunning = nowRunning
+			st["running"] = nowRunning
 			steps = append(steps, st)
 		}
 		t, i := mjml.VerifCacheConfig()
